@@ -20,6 +20,10 @@ CLAUSE = {
     "TAL": ".TIMES(AT_LEAST(1))",
     "TAM": ".TIMES(AT_MOST(2))",
     "T0": ".TIMES(0)",
+    "T02": ".TIMES(0, 2)",
+    "TAL0": ".TIMES(AT_LEAST(0))",
+    "RT02": ".RT_TIMES(0, 2)",
+    "RTAM": ".RT_TIMES(AT_MOST(2))",
     "TINV": ".TIMES(3, 2)",
     "RT": ".RT_TIMES(2)",
     "Q": ".IN_SEQUENCE(s)",
@@ -90,6 +94,13 @@ def extra_positive(sig):
     ]
     for perm in itertools.permutations(["W", "S", "Q"] + fin):
         cs.append(("ALLOW_CALL", tuple(perm)))
+    # every spelling of a call-count limit, at every position relative to the clauses that are illegal only with
+    # TIMES(0): a lower bound of 0 with a non-zero upper bound (AT_MOST, (0, n)) is NOT TIMES(0)
+    fins = [[], ["TH"]] if sig == "V" else [["RET"], ["TH"], ["LRET"]]
+    for tok in ("TAM", "T02", "TAL0", "T13", "TAL", "RT02", "RTAM"):
+        for f in fins:
+            for perm in itertools.permutations([tok, "S", "Q"] + f):
+                cs.append(("REQUIRE_CALL", tuple(perm)))
     return cs
 
 
